@@ -622,6 +622,59 @@ impl<'a> Gen<'a> {
             // a group whose members hold weak pointers to every member (themselves included) and upgrade them from their
             // finalizers and destructors; the same weak pointers are upgraded at top level at every stage of the group's
             // life: held, unreferenced but not yet collected (cyclic) or kept by an upgraded pointer (acyclic), reclaimed
+            if self.r.chance(1, 3) {
+                // a garbage cycle whose member solely owns, through an untraced field, an acyclic object that holds weak
+                // pointers to the cycle's members: that object is finalized and destroyed by a plain Cc::drop nested in
+                // the collector's drop phase, and its finalizer and destructor try to upgrade those weak pointers
+                let plain = |g: &mut Gen| {
+                    let mut t = g.tmpl();
+                    if g.r.chance(2, 3) {
+                        t.fin = vec![];
+                    }
+                    if g.r.chance(2, 3) {
+                        t.drop = vec![];
+                    }
+                    t
+                };
+                let t1 = plain(self);
+                self.push(Op::new(O::New, &[]).with_tmpl(t1));
+                let t2 = plain(self);
+                self.push(Op::new(O::New, &[]).with_tmpl(t2));
+                let mut ta = self.tmpl();
+                let mut fin = vec![];
+                for _ in 0..1 + self.r.below(2) {
+                    let j = self.r.below(2) as i64;
+                    fin.push(match self.r.below(3) {
+                        0 => Mini::new(MiniCode::WeakToRoot, &[j]),
+                        1 => Mini::new(MiniCode::WeakToSlot, &[j, 1 + self.r.below(3) as i64]),
+                        _ => Mini::new(MiniCode::WeakToDrop, &[j]),
+                    });
+                }
+                ta.fin = if HAS_FIN { fin } else { vec![] };
+                ta.drop = vec![Mini::new(MiniCode::WeakToRoot, &[self.r.below(2) as i64])];
+                self.push(Op::new(O::New, &[]).with_tmpl(ta));
+                let w0 = self.sh.weaks as i64;
+                self.push(Op::new(O::Downgrade, &[base]));
+                self.push(Op::new(O::Downgrade, &[base + 1]));
+                self.push(Op::new(O::StoreWeak, &[base + 2, w0]));
+                self.push(Op::new(O::StoreWeak, &[base + 2, w0 + 1]));
+                self.push(Op::new(O::SetSlot, &[base, 0, base + 1]));
+                self.push(Op::new(O::SetSlot, &[base + 1, 0, base]));
+                let holder = base + self.r.below(2) as i64;
+                self.push(Op::new(O::SetPin, &[holder, base + 2]));
+                self.push(Op::new(O::Drop, &[base + 2]));
+                if self.r.chance(1, 2) {
+                    self.push(Op::new(O::Drop, &[base]));
+                    self.push(Op::new(O::Drop, &[base + 1]));
+                } else {
+                    self.push(Op::new(O::Drop, &[base + 1]));
+                    self.push(Op::new(O::Drop, &[base]));
+                }
+                self.push(Op::new(O::Collect, &[]));
+                self.push(Op::new(O::UpgradeDrop, &[w0]));
+                self.push(Op::new(O::UpgradeDrop, &[w0 + 1]));
+                return;
+            }
             let k = 1 + self.r.below(3) as i64;
             let cyclic = k > 1 || self.r.chance(1, 2);
             for _ in 0..k {
